@@ -64,6 +64,9 @@ RecProgs == { NSort(NVar(""), <<[dir |-> "", e |-> K]>>), NSort(NVar(""), <<[dir
 \* function VALUES of every kind called with every short argument list (also none at all), directly, through a variable,
 \* through ~> and handed to a higher-order function
 Callees == { NVar("sum"), NVar("uppercase"), NVar("substringBefore"), NLambda(<<"x">>, NVar("x")), NLambda(<<>>, NNum(IntV(1))),
+             \* bodies that are blocks: one expression in parentheses, in two pairs of them, and a typed function with such a body
+             NLambda(<<"x">>, NBlock(<<NVar("x")>>)), NLambda(<<"x">>, NBlock(<<NBlock(<<NArray(<<NVar("x")>>)>>)>>)), NLambda(<<"x">>, NBlock(<<NAssign("y", NVar("x")), NVar("y")>>)),
+             [k |-> "TypedLambda", params |-> <<"x">>, body |-> NBlock(<<NVar("x")>>), short |-> FALSE, sig |-> <<[ty |-> 2, opt |-> 0, sub |-> <<>>]>>, sigout |-> <<>>],
              NLambda(<<"a", "b">>, NArray(<<NVar("a"), NVar("b")>>)),
              NLambda(<<"a", "b", "c", "d">>, NBool(TRUE)), NLambda(<<"a", "b", "c", "d", "e">>, NVar("d")), NVar("replace"), NVar("formatNumber"),
              NPartial(NVar("replace"), <<NPlace, NPlace, NPlace, NPlace>>), NPartial(NLambda(<<"a", "b", "c", "d", "e">>, NVar("e")), <<NPlace, NPlace, NPlace, NPlace, NPlace>>),
